@@ -26,6 +26,7 @@ type Ty struct {
 	N     int
 	IsSet bool   // for slices: annotate as set
 	Ann   string // override annotation for this node ("" = canonical)
+	Named string // a declared container type (AttrsT, IDsT) standing for this node in Go source
 }
 
 func prim(kind string) *Ty        { return &Ty{K: "prim", Kind: kind, Name: kind} }
@@ -73,6 +74,9 @@ func newStruct(group string) *Struct {
 func sref(s *Struct) *Ty { return &Ty{K: "struct", Sid: s.Sid, Name: s.Name} }
 
 func (t *Ty) GoExpr() string {
+	if t.Named != "" {
+		return t.Named
+	}
 	switch t.K {
 	case "prim":
 		switch t.Kind {
@@ -864,6 +868,25 @@ func groupSpellings() {
 		f.Embedded = true
 		eo.addRaw("Z", prim("string"), `frugal:"3,optional,string"`, 3, true)
 	}
+	// embedded fields of every shape are ignored, tagged or not, also when their tag repeats an id in use
+	// (R2 let tagged embedded pointers and embedded named non-struct types become wire fields)
+	{
+		ee := newStruct("spellings")
+		ee.addRaw("X", prim("int64"), `frugal:"1,default,i64"`, 1, true)
+		f := ee.addRaw("", ptr(sref(leaf)), fmt.Sprintf(`frugal:"2,optional,%s"`, leaf.Name), -1, false)
+		f.Embedded = true
+		f = ee.addRaw("", named("int64", "E1"), `frugal:"3,required,E1"`, -1, false)
+		f.Embedded = true
+		at := mapOf(prim("string"), prim("string"))
+		at.Named = "AttrsT"
+		f = ee.addRaw("", at, `frugal:"4,default,map<string:string>"`, -1, false)
+		f.Embedded = true
+		it := list(prim("int64"))
+		it.Named = "IDsT"
+		f = ee.addRaw("", it, `thrift:"ids,1,required,list<i64>"`, -1, false)
+		f.Embedded = true
+		ee.addRaw("Y", prim("string"), `frugal:"5,default,string"`, 5, true)
+	}
 	// zero-size fields share their offset with the field after them (D15: the required-field error
 	// named the field by offset)
 	em := newStruct("leaf")
@@ -1437,6 +1460,23 @@ func groupAnon() {
 		}
 		b.add("X", t, 2, req)
 	}
+	// identifiers with underscores (what thriftgo emits for foo_bar.thrift): qualifiers and type names
+	// (R4 made `_` a separator)
+	h = newStruct("anon")
+	{
+		t1 := sref(leaf)
+		t1.Ann = "user_info." + leaf.Name
+		h.add("A", ptr(t1), 1, "optional")
+		t2 := sref(leaf)
+		t2.Ann = "_x." + leaf.Name
+		h.add("B", list(ptr(t2)), 2, "default")
+		e := named("int64", "E_U")
+		e.Ann = "E_U"
+		h.add("C", e, 3, "default")
+		e2 := named("int64", "E_U")
+		e2.Ann = "a_b_c.E_U"
+		h.add("D", mapOf(prim("string"), e2), 4, "default")
+	}
 	// Go type names as redundant annotations: every predeclared name leaves the type as it is (D24: `int`
 	// named `int` used to become a 32-bit enum), a defined integer type named in its annotation is an enum
 	goName := func(kind string) *Ty { t := prim(kind); t.Ann = kind; return t }
@@ -1457,7 +1497,7 @@ func emit(outDir string) {
 	var g strings.Builder
 	g.WriteString("// Code generated by gentypes. DO NOT EDIT.\n\npackage universe\n\nimport (\n\t\"math\"\n\t\"reflect\"\n\t\"unsafe\"\n)\n\n")
 	g.WriteString("var _ = math.Pi\nvar _ unsafe.Pointer\n\n")
-	g.WriteString("type E1 int64\ntype E2 int64\ntype E3 int64\ntype NB uint8\ntype C1 int\n\n")
+	g.WriteString("type E1 int64\ntype E2 int64\ntype E3 int64\ntype NB uint8\ntype C1 int\ntype E_U int64\ntype AttrsT map[string]string\ntype IDsT []int64\n\n")
 	var u strings.Builder
 	for _, s := range structs {
 		if s.Anonymous {
@@ -1494,6 +1534,9 @@ func emit(outDir string) {
 				name = f.Ty.Name
 				if f.Ty.K == "ptr" {
 					name = f.Ty.Elem.Name
+				}
+				if f.Ty.Named != "" {
+					name = f.Ty.Named
 				}
 				fmt.Fprintf(&g, "\t%s `%s`\n", f.Ty.GoExpr(), f.Tag)
 			} else {
